@@ -143,7 +143,7 @@ class Prop:
     rule = ("seeded combinations of a synchronous never-ending producer (from_iterable over a counted endless iterator, range(0, 10^12), "
             "repeat_value, generate, repeat of a non-empty source), a carrier shape (direct, element-wise operators, merge, flat_map, "
             "concat, switch_map, share, publish+ref_count, amb, with_latest_from, combine_latest, catch, retry, buffer, group_by) and an "
-            "early-terminating operator (take, first, take_while, element_at, take_until, find, some, contains, slice), subscribed with "
+            "early-terminating operator (take, first, take_while, element_at, take_until, find, some, contains, slice), subscribed (once, or twice in a row: the same observable object again after the first subscription ended) with "
             "the default scheduler, the current-thread singleton, a fresh CurrentThreadScheduler and an ImmediateScheduler. subscribe() "
             "must return after at most %d produced elements (the producer raises a BaseException beyond that, so no 'except Exception' "
             "can hide it) and nothing may be produced after it returned. Distinct = (producer, shape, terminator, scheduler, n); "
@@ -154,34 +154,43 @@ class Prop:
     def generate(self, rng, tier):
         starving = rng.random() < 0.15
         return {"producer": rng.choice(PRODUCERS), "shape": rng.choice(STARVING if starving else SHAPES),
-                "term": rng.choice(TERMINATORS), "n": rng.randrange(1, 6), "scheduler": rng.choice(SCHEDULERS + ["default", "default"])}
+                "term": rng.choice(TERMINATORS), "n": rng.randrange(1, 6), "scheduler": rng.choice(SCHEDULERS + ["default", "default"]),
+                "again": rng.random() < 0.35}  # subscribe the same observable object a second time after the first subscription ended
 
     def execute(self, sc):
         out = Outcome()
         c = Counter()
         got = []
         desc = "producer=%s shape=%s terminator=%s n=%s scheduler=%s" % (sc["producer"], sc["shape"], sc["term"], sc["n"], sc["scheduler"])
-        out.digest = (sc["producer"], sc["shape"], sc["term"], sc["n"], sc["scheduler"])
+        out.digest = (sc["producer"], sc["shape"], sc["term"], sc["n"], sc["scheduler"], bool(sc.get("again")))
         out.nontrivial = True
         out.probes["scheduler:" + sc["scheduler"]] += 1
         out.probes["shape:" + sc["shape"]] += 1
         term = "take_until" if sc["shape"] == "take_until_late_trigger" else sc["term"]
         obs = terminate(shape(sc["shape"], endless(sc["producer"], c)), term, sc["n"])
         sch = {"default": None, "singleton": CurrentThreadScheduler.singleton(), "fresh_current": CurrentThreadScheduler(), "immediate": ImmediateScheduler()}[sc["scheduler"]]
-        try:
-            sub = obs.subscribe(lambda v: got.append(("N", v)), lambda e: got.append(("E", e)), lambda: got.append(("C", None)), scheduler=sch)
-            c.returned = True
-            sub.dispose()
-        except vt.Budget:
-            out.bad("did-not-terminate", "%s: the producer was still running after %d elements (subscribe() had not returned; subscriber saw %d notifications)" % (desc, BUDGET, len(got)))
-            return out
-        except RecursionError:
-            out.bad("did-not-terminate", "%s: unbounded recursion (RecursionError) before the early termination took effect" % desc)
-            return out
-        if c.after_return:
-            out.bad("produced-after-return", "%s: %d elements produced after subscribe() returned" % (desc, c.after_return))
-        if not any(k in "CE" for k, _ in got):
-            out.bad("no-termination", "%s: subscribe() returned but the subscriber saw no terminal notification (%r)" % (desc, got[:5]))
+        for rnd in range(2 if sc.get("again") else 1):
+            if rnd:
+                desc += " [second subscription of the same observable]"
+                out.probes["second_subscription"] += 1
+                c.n, c.after_return, c.returned = 0, 0, False
+                del got[:]
+            try:
+                sub = obs.subscribe(lambda v: got.append(("N", v)), lambda e: got.append(("E", e)), lambda: got.append(("C", None)), scheduler=sch)
+                c.returned = True
+                sub.dispose()
+            except vt.Budget:
+                out.bad("did-not-terminate", "%s: the producer was still running after %d elements (subscribe() had not returned; subscriber saw %d notifications)" % (desc, BUDGET, len(got)))
+                return out
+            except RecursionError:
+                out.bad("did-not-terminate", "%s: unbounded recursion (RecursionError) before the early termination took effect" % desc)
+                return out
+            if c.after_return:
+                out.bad("produced-after-return", "%s: %d elements produced after subscribe() returned" % (desc, c.after_return))
+            if not any(k in "CE" for k, _ in got):
+                out.bad("no-termination", "%s: subscribe() returned but the subscriber saw no terminal notification (%r)" % (desc, got[:5]))
+            if out.viol:
+                break
         out.info = {"scenario": desc, "produced": c.n}
         return out
 
